@@ -41,6 +41,25 @@ class Lock:
         self.f.close()
 
 
+_PIPE = None
+
+
+def pipe_acquire():
+    """one lock around `regenerate facts -> lake build -> #print axioms audit` of a check: the generated Lean files are shared,
+    so two checks started at once (possibly against different VERIF_REPO trees) must not interleave inside that section"""
+    global _PIPE
+    if _PIPE is None:
+        _PIPE = Lock("facts-lean")
+        _PIPE.__enter__()
+
+
+def pipe_release():
+    global _PIPE
+    if _PIPE is not None:
+        _PIPE.__exit__()
+        _PIPE = None
+
+
 def log(*a):
     print("[check]", *a, flush=True)
 
@@ -230,7 +249,7 @@ def strip_br(line):
     return re.sub(r"\s+br=\S*", "", line)
 
 
-def diff_streams(ops_path, impl_path, model_path, limit=5):
+def diff_streams(ops_path, impl_path, model_path, limit=40):
     """returns (n_lines, diffs, branches) where diffs = list of dict(case, index, op, impl, model, ops_prefix)"""
     ops = open(ops_path).read().split("\n")
     impl = open(impl_path).read().split("\n")
